@@ -136,6 +136,8 @@ def gen_e2e(ctx, rng):
           "constraint_option": opt}
     meta = {"opt": opt, "N": N, "s": s, "L": L}
     if opt == "predetermined" and rng.random() < 0.4:
+        # (only `predetermined`: C05/C06 speak of GQR *given* the unconstrained ranking; `exact_n` without it cannot count the
+        # region sensors already ranked and promises nothing – that configuration is exercised by C18 only)
         meta["omit_all_sensors"] = True
     if rng.random() < 0.35:
         meta["np_ints"] = rng.choice([64, 32])
